@@ -86,15 +86,31 @@ def takeNats : Nat → List String → List Nat → Option (List Nat × List Str
   | n + 1, w :: ws, acc => takeNats n ws (nat! w :: acc)
   | _, _, _ => none
 
+/-- the ChannelDetails record behind an `f` candidate of an op line: ids, current minimum / limit and the counterparty's
+    static minimum are on the line; the other (decoy) fields are the harness's pure functions of the limit
+    (harness/src/bin/c16.rs `channel_details`: counterparty maximum 3·limit+11, outbound capacity 2·limit+7, channel value
+    limit/500+8 sat, inbound capacity 42; u64-saturating there, irrelevant unless a FirstHop arm starts reading them) -/
+def detailsOf (alias scid : Option Nat) (mn limit : Nat) (cpMin : Option Nat) : FirstHopDetails :=
+  { next_outbound_htlc_minimum_msat := mn, next_outbound_htlc_limit_msat := limit,
+    outbound_capacity_msat := Nat.min (limit * 2 + 7) U64_MAX, inbound_capacity_msat := 42, channel_value_satoshis := limit / 500 + 8,
+    inbound_htlc_minimum_msat := none, inbound_htlc_maximum_msat := none, is_announced := false,
+    short_channel_id := scid, outbound_scid_alias := alias,
+    counterparty_outbound_htlc_minimum_msat := cpMin, counterparty_outbound_htlc_maximum_msat := some (Nat.min (limit * 3 + 11) U64_MAX) }
+
 def parseChans : Nat → List String → List Chan → Option (List Chan × List String)
   | 0, ws, acc => some (acc.reverse, ws)
   | n + 1, k :: s :: alt :: a :: b :: e :: mn :: mx :: cap :: base :: prop :: cltv :: rest, acc =>
     let kind : Option CandidateKind :=
       if k == "p" then some .publicHop else if k == "f" then some .firstHop else if k == "h" then some .privateHop
       else if k == "b" then some .blinded else if k == "o" then some .oneHopBlinded else none
-    -- a first hop comes with the raw ChannelDetails ids: <outbound_scid_alias|-> <short_channel_id|->
-    let ids : Option (Nat × Option Nat) :=
-      if k == "f" then firstHopIds (optNat s) (optNat alt) else some (nat! s, none)
+    -- a first hop comes with the raw ChannelDetails: <outbound_scid_alias|-> <short_channel_id|-> … <next minimum> <next limit>
+    -- <counterparty static minimum|->; the candidate is what the model's `firstHopChan` (translated FirstHop arms) makes of it
+    if k == "f" then
+      match firstHopChan (detailsOf (optNat s) (optNat alt) (nat! mn) ((optNat mx).getD 0) (optNat cap)) (nat! a) (nat! b) (e == "1") with
+      | some c => parseChans n rest (c :: acc)
+      | none => none
+    else
+    let ids : Option (Nat × Option Nat) := some (nat! s, none)
     match kind, ids with
     | some kind, some (scid, alt) =>
       parseChans n rest ({ scid := scid, src := nat! a, dst := nat! b, enabled := e == "1", htlcMin := nat! mn,
@@ -153,6 +169,20 @@ def c16router : Drv where
            | some (p, g, []) => if singlePathExists g p then "ref=found" else "ref=none"
            | _ => "bad-op")
     | ["matchscid", a, s, h] => ((), if matches_an_scid (optNat a) (optNat s) (nat! h) then "1" else "0")
+    | ["firsthop", mn, lim, cpmin, cpmax, outcap, incap, vsat, inmin, inmax, ann, scid, alias] =>
+      -- the accessors of the FirstHop candidate of this ChannelDetails, from the TRANSLATED arms
+      let d : FirstHopDetails :=
+        { next_outbound_htlc_minimum_msat := nat! mn, next_outbound_htlc_limit_msat := nat! lim, outbound_capacity_msat := nat! outcap,
+          inbound_capacity_msat := nat! incap, channel_value_satoshis := nat! vsat, inbound_htlc_minimum_msat := optNat inmin,
+          inbound_htlc_maximum_msat := optNat inmax, is_announced := ann == "1", short_channel_id := optNat scid,
+          outbound_scid_alias := optNat alias, counterparty_outbound_htlc_minimum_msat := optNat cpmin,
+          counterparty_outbound_htlc_maximum_msat := optNat cpmax }
+      let o := fun (x : Option Nat) => match x with | some n => toString n | none => "-"
+      let fees := candidate_fees .firstHop 0 0
+      ((), "min " ++ toString (first_hop_htlc_minimum_msat d) ++ " cap " ++
+           (match first_hop_effective_capacity d with | .exactLiquidity l => "exact " ++ toString l | _ => "other") ++
+           " scid " ++ o (first_hop_short_channel_id d) ++ " gscid " ++ o (first_hop_globally_unique_scid d) ++
+           " fees " ++ toString fees.1 ++ " " ++ toString fees.2 ++ " cltv " ++ toString (candidate_cltv_expiry_delta .firstHop 0))
     | _ => ((), "bad-op")
 
 end Ldk.Driver
